@@ -3,6 +3,7 @@ import VaxisModel.Model.Lifecycle
 import VaxisModel.Spec.ModeTerm
 import VaxisModel.Spec.Tokenize
 import VaxisModel.Lemmas.C07Gate
+import VaxisModel.Lemmas.C04Session
 
 /-! Driver for C04 (stateful; one case = one Vaxis session on the fake console). Lines:
 
@@ -11,7 +12,10 @@ import VaxisModel.Lemmas.C07Gate
                      (the first three values are what Vaxis stored — inputs of the model; the last two are the fake terminal's own configuration — the ORIGINAL values the oracle compares with)
   setappid <id hex>  \t bytes    SetAppID: model = the direct OSC 176 write
   startup            \t bytes    model = tokens of `startupW`
-  bytes              \t bytes    frames etc.: only fed to the mode terminal
+  bytes0             \t bytes    anything (the panic child's output before the panic, start-up included): only fed to the mode terminal
+  bytes              \t bytes    frames etc.: fed to the mode terminal; verdict: every token is an admissible operation of the
+                                 session theorem (`C04Session.frameTok`, or an OSC 176 set = `Op.setAppId`) and no hyperlink is left open
+                                 (the hypotheses `Op.ok` of `Props.C04.balanced`, checked on the implementation's frames)
   suspend <cnv> <clv> <row> <col> <style>\t bytes    model = tokens of `suspendW`; verdict: everything restored
   resume             \t bytes    model = tokens of `resumeW`; verdict: mode state = after start-up
   close <cnv> <clv> <closed> <row> <col> <style> \t bytes   model = tokens of `closeW`; verdict: everything restored
@@ -130,9 +134,21 @@ def step (s : St) (line : String) : St × String :=
         let t := ModeTerm.run s.t itoks
         ({ s with w := { w with wire := [] }, t := t, tStart := t }, s!"{c.1}\t{c.2}\t{gate s.env (afterDA1 itoks) "ok"}")
       | none => (s, bad3)
-  | ["bytes"] =>
+  | ["bytes0"] =>
       match lex impl with
       | some itoks => ({ s with t := ModeTerm.run s.t itoks }, "-\t-\t-")
+      | none => (s, bad3)
+  | ["bytes"] =>
+      match lex impl with
+      | some itoks =>
+        let t := ModeTerm.run s.t itoks
+        let isSet (k : Tok) : Bool := match k with
+          | .other raw => ModeTerm.startsWith raw "1b5d3137363b" && raw != "1b5d3137363b3f"
+          | _ => false
+        let v := match itoks.find? (fun k => !(VaxisModel.Lemmas.C04Session.frameTok k || isSet k)) with
+          | some k => s!"FAIL application output between lifecycle calls changes lifecycle state: {tokStr k}"
+          | none => if t.linkOpen && !s.t.linkOpen then "FAIL a frame leaves a hyperlink open" else (if itoks.isEmpty then "-" else "ok")
+        ({ s with t := t }, s!"-\t-\t{v}")
       | none => (s, bad3)
   | ["suspend", cnv, clv, row, col, sty] =>
       if impl = "hang" then (s, "-\thang\tFAIL Suspend never returns") else
